@@ -112,8 +112,8 @@ func ruleC12Gate(e *Env) {
 			jv = f
 		}
 	}
-	ut := e.P.Func("size", "unmarshalText")
-	ujo := e.P.Func("size", "unmarshalJSONObject")
+	ut := e.F("size", "unmarshalText")
+	ujo := e.F("size", "unmarshalJSONObject")
 	delimT, numberT := e.jsonType("Delim"), e.jsonType("Number")
 	if jv == nil || ut == nil || ujo == nil || delimT == nil || numberT == nil {
 		e.S.Unk(rule, flow.FnName(dp), "anchors", "JSON value function / unmarshalText / unmarshalJSONObject / json types not found", e.Pos(dp))
@@ -310,7 +310,7 @@ func ruleC12Keys(e *Env) {
 	// newOrError
 	if fn := e.Fn(rule, "size", "newOrError"); fn != nil {
 		site := flow.FnName(fn)
-		ns := e.P.Func("size", "newSize")
+		ns := e.F("size", "newSize")
 		sums := map[string]pred.Summary{}
 		if ns != nil {
 			sums[ns.String()] = func(ev *pred.Evaluator, args []pred.Val) (pred.Val, error) {
@@ -435,8 +435,8 @@ func ruleC12Arms(e *Env) {
 	}
 	site := flow.FnName(rd)
 	for _, arm := range []struct{ decode, sentinel, what string }{{"decodeValue", "ErrDuplicatedValueKey", "value"}, {"decodeUnit", "ErrDuplicatedUnitKey", "unit"}} {
-		dec := e.P.Func("size", arm.decode)
-		sent := e.P.Var("size", arm.sentinel)
+		dec := e.F("size", arm.decode)
+		sent := e.V("size", arm.sentinel)
 		calls := e.C.Calls(rd, func(f *ssa.Function) bool { return f == dec })
 		if dec == nil || sent == nil || len(calls) != 1 {
 			e.S.Unk(rule, site, arm.what+" arm", "call to "+arm.decode+" / sentinel "+arm.sentinel+" not found exactly once", e.Pos(rd))
@@ -494,8 +494,8 @@ func ruleC12Arms(e *Env) {
 		}
 	}
 	// unknown keys
-	skip := e.P.Func("size", "decodeAndSkipNested")
-	sentU := e.P.Var("size", "ErrUnexpectedKey")
+	skip := e.F("size", "decodeAndSkipNested")
+	sentU := e.V("size", "ErrUnexpectedKey")
 	bit, _ := tabConstInt(e, "size", "RuleDisallowUnknownKeys")
 	calls := e.C.Calls(rd, func(f *ssa.Function) bool { return f == skip })
 	if skip == nil || sentU == nil || len(calls) != 1 {
